@@ -20,7 +20,7 @@ for p in props:
             "evidence_file": "/verif/evidence/%s.json" % cid,
             "replay_cmd_template": "bin/check %s --replay {path}" % cid,
             "engine": t["engine"],
-            "level_claimed": {"category": "model_checking", "text": t["level"], "design_ref": t["design_ref"]},
+            "level_claimed": {"category": "model_checking", "text": t["level"] + SIZES, "design_ref": t["design_ref"]},
             "level_note": t["note"],
             "technique": t["technique"],
         })
